@@ -30,6 +30,12 @@ theorem upon_done_runs_iff_done (f : Fn) (o : Outcome) :
 theorem upon_done_value (v : Nat) : (UnKind.uponDone (.const v)).map .done = .value v := rfl
 theorem upon_done_throw_becomes_set_error (e : Nat) : (UnKind.uponDone (.throwAlways e)).map .done = .error e := rfl
 
+/-- materialize() turns every completion of its child into a VALUE (observed here by `then`): in particular a child
+    that completes with done does not make the materialized sender complete with done -/
+theorem materialize_turns_every_channel_into_a_value (o : Outcome) :
+    UnKind.matObs.map o = (match o with | .value v => .value v | .error e => .value (e + 100) | .done => .value 77) := by
+  cases o <;> rfl
+
 /-- a throwing callable becomes set_error -/
 theorem throw_becomes_set_error (e v : Nat) : (UnKind.thenF (.throwAlways e)).map (.value v) = .error e := rfl
 
